@@ -888,7 +888,8 @@ static void exec_asm(Run &R, TaskRt &T, int ti, int oi, const Op &op) {
   k.off_after = off;
   k.buf = cv.p;
   k.buf_cap = cv.cap;
-  k.fault_fired = T.ctx.fired_total > 0;
+  // (an interrupted open/write is no refusal: the call may retry or give up - failure is accepted, success is judged in full)
+  k.fault_fired = T.ctx.fired_total > 0 || (T.ctx.soft_faults > 0 && ret != 0);
   // A refused read(2) only matters if the data was needed: stdio probes for end-of-file and reads ahead, and a
   // loader that already holds the whole file may ignore such a failure.  With read faults only, failure is
   // accepted, and success is accepted if everything else is as if nothing had been refused.
